@@ -14,6 +14,8 @@ import Pamiq.Model.BookkeepDriver
 import Pamiq.Model.SchedDriver
 import Pamiq.Model.AdjustDriver
 import Pamiq.Model.TrainerDriver
+import Pamiq.Model.GymDriver
+import Pamiq.Model.QueueDriver
 open Pamiq
 
 structure DState where
@@ -34,6 +36,10 @@ structure DState where
   sched : Sched.DSt := {}
   adjust : Adjust.DSt := {}
   trainer : Trainer.DSt := {}
+  -- Gym (C20)
+  gym : Gym.DSt := {}
+  -- Queue (C07)
+  queue : Queue.DSt := {}
 
 def handle (st : DState) (line : String) : DState × String :=
   match (line.trimAscii.toString.splitOn " ").filter (· ≠ "") with
@@ -78,6 +84,14 @@ def handle (st : DState) (line : String) : DState × String :=
   | "trainer" :: rest =>
     let (d, out) := Trainer.drive st.trainer rest
     ({ st with trainer := d }, out)
+  -- Gym (C20)
+  | "gym" :: rest =>
+    let (d, out) := Gym.drive st.gym rest
+    ({ st with gym := d }, out)
+  -- Queue (C07)
+  | "queue" :: rest =>
+    let (d, out) := Queue.drive st.queue rest
+    ({ st with queue := d }, out)
   | _ => (st, "bad-op")
 
 partial def loop (h : IO.FS.Stream) (out : IO.FS.Stream) (st : DState) : IO Unit := do
